@@ -136,6 +136,7 @@ func cmdCheck(args []string) {
 		fnames = append(fnames, fc.Key)
 		e.VerifyFn(fc)
 	}
+	e.RunCovers(*jobs)
 	var obs []*sym.Obligation
 	for _, ob := range e.Obligs {
 		if sym.HasTag(ob.Tags, *prop) {
